@@ -205,6 +205,52 @@ def footprint(F):
     return out
 
 
+def bulk_copies(F, g):
+    """For the function g (a caller of arena::allocate): per returning path, the recognised bulk copies into the allocated
+    header as (source start term, count, destination index), all affine in the parameters where they can be."""
+    srec = F.need_rec('ipr::util::string')
+    DATA = srec['fields'][1]['name']
+    S = Sym(F, opaque=lambda fid: F.fn.get(fid) is None or fid == ALLOC, max_depth=20)
+    try:
+        paths = S.run(g['id'])
+    except Unsupported as e:
+        raise AnalysisBroken(f'{g["id"]}: {e}')
+    vars_ = {('param', i) for i in range(len(g.get('params', [])))}
+    res = []
+    for st, k, v in paths:
+        found = []
+        hdrs = [('call', e[1], e[2], e[3]) for e in st.effects if e[0] == 'call' and e[1] == ALLOC]
+        for H in hdrs:
+            def ptr_index(p):
+                if isinstance(p, tuple) and p[0] == 'castto':
+                    return ptr_index(p[2])
+                if isinstance(p, tuple) and p[0] == 'addr' and isinstance(p[1], tuple) and p[1][0] == 'index' and p[1][1] == ('fld', ('deref', H), DATA):
+                    return _lin(p[1][2], vars_)
+                if p == ('fld', ('deref', H), DATA) or (isinstance(p, tuple) and p[0] == 'decay' and p[1] == ('fld', ('deref', H), DATA)):
+                    return {1: 0}
+                if isinstance(p, tuple) and p[0] == 'op' and p[1] == '+' and len(p) == 4:
+                    b, o = ptr_index(p[2]), _lin(p[3], vars_)
+                    return _add(b, o) if isinstance(b, dict) and o is not None else None
+                return None
+            for e in st.effects:
+                if e[0] not in ('fcall', 'call') or e[1] == ALLOC or len(e) < 4:
+                    continue
+                name, a, q = contracts.fn_simple(e[1]), e[3], e[1]
+                src = cnt = dst = None
+                if name in COPY3 and len(a) == 3 and q.startswith('std::') and 'char_traits' not in q:
+                    f0, l0 = _lin(a[0], vars_), _lin(a[1], vars_)
+                    src, dst = a[0], ptr_index(a[2])
+                    cnt = _add(l0, f0, -1) if f0 is not None and l0 is not None else None
+                elif name in COPYN and len(a) == 3 and q.startswith('std::'):
+                    src, cnt, dst = a[0], _lin(a[1], vars_), ptr_index(a[2])
+                elif (name in MEMCPY or (name in TRAITS_COPY and 'char_traits' in q)) and len(a) == 3:
+                    src, cnt, dst = a[1], _lin(a[2], vars_), ptr_index(a[0])
+                if dst is not None and cnt is not None:
+                    found.append((src, {kk: vv for kk, vv in cnt.items() if vv != 0}, {kk: vv for kk, vv in dst.items() if vv != 0}))
+        res.append((st, k, v, found))
+    return res
+
+
 def _readonly_use(F, e):
     return False
 
